@@ -256,6 +256,23 @@ Proof.
   replace (Z.to_nat (base + Z.of_nat k - base)) with k by lia. rewrite F, E. reflexivity.
 Qed.
 
+Ltac pclosed p := match p with xH => idtac | xO ?q => pclosed q | xI ?q => pclosed q end.
+Ltac zlit t := match t with Z0 => idtac | Zpos ?p => pclosed p | Zneg ?p => pclosed p end.
+(* evaluate arithmetic on literals *)
+Ltac zeval :=
+  repeat match goal with
+         | |- context [?a mod ?b] => zlit a; zlit b; let v := eval vm_compute in (a mod b) in change (a mod b) with v
+         | |- context [?a / ?b] => zlit a; zlit b; let v := eval vm_compute in (a / b) in change (a / b) with v
+         | |- context [?a * ?b] => zlit a; zlit b; let v := eval vm_compute in (a * b) in change (a * b) with v
+         | |- context [?a + ?b] => zlit a; zlit b; let v := eval vm_compute in (a + b) in change (a + b) with v
+         | |- context [?a - ?b] => zlit a; zlit b; let v := eval vm_compute in (a - b) in change (a - b) with v
+         | |- context [Z.lor ?a ?b] => zlit a; zlit b; let v := eval vm_compute in (Z.lor a b) in change (Z.lor a b) with v
+         | |- context [?a <=? ?b] => zlit a; zlit b; let v := eval vm_compute in (a <=? b) in change (a <=? b) with v
+         | |- context [?a =? ?b] => zlit a; zlit b; let v := eval vm_compute in (a =? b) in change (a =? b) with v
+         | |- context [sgn16 ?a] => zlit a; let v := eval vm_compute in (sgn16 a) in change (sgn16 a) with v
+         | |- context [fits16s ?a] => zlit a; let v := eval vm_compute in (fits16s a) in change (fits16s a) with v
+         end.
+
 Ltac cnorm :=
   cbv [calu3 cf_ADD cf_SUB cnext cset czs with_r with_mem with_pc with_S with_Z with_V with_C with_CB
        cr cmem cpc cS cZ cV cC cCB fst snd cbin ccin cholds cswap];
@@ -269,7 +286,7 @@ Ltac cnorm :=
          | |- context [byte_of 0] => change (byte_of 0) with 0
          end;
   rewrite ?orb_true_r, ?orb_false_r, ?andb_true_r, ?andb_false_r;
-  cbn [orb andb negb Z.eqb Pos.eqb].
+  cbn [orb andb negb Z.eqb Pos.eqb]; zeval; cbn [orb andb negb].
 
 Ltac cgo k :=
   erewrite (crun_step _ _ _ _ k); [ | cnorm; try lia | reflexivity | reflexivity ]; cnorm.
